@@ -151,7 +151,7 @@ def formulas(which: str, tier: str) -> list:
             out.append(Quant(k1, "x", sels[1], Quant(k2, "y", sels[0], Bare(And(Atom('int(y) > 0', cmp=True), Atom('str(y) <= str(x)', cmp=True))))))
     # [:n] / [n:] / negative slices
     for base in ([Sym("<a>"), Sym("<b>")] if which == "G1" else [Sym("<e>")]):
-        for lo, hi in ((None, 1), (None, 2), (1, None), (-1, None), (None, -1), (0, 1), (1, 3)):
+        for lo, hi in ((None, 1), (None, 2), (1, None), (-1, None), (None, -1), (0, 1), (1, 3), (None, 0), (1, 0), (0, 0), (0, None), (0, 2)):
             out.append(Atom('str({0}) == "1"', (Slc(base, lo, hi),), cmp=True))
             out.append(Atom('len(str({0})) == 1', (Slc(base, lo, hi),), cmp=True))
     # nested quantifiers that rebind / combine scopes
